@@ -1,7 +1,14 @@
-//! C19 — AlignedCursor vs std::io::Cursor.
+//! C19 — AlignedCursor vs std::io::Cursor<Vec<u8>>.
+//! (a) seek: all positions x all SeekFrom values against the real std cursor.
+//! (b) one step (write / read) from every reachable state of a (len,pos,n) grid
+//!     with symbolic byte contents, compared with the real std cursor run on the
+//!     same inputs, plus the representation invariant (capacity rounding, zero
+//!     tail, storage alignment) re-established on the post-state.
+//! (c) short histories over the same alphabet.
 use crate::env::*;
-use crate::sym::{self, any, assume};
+use crate::sym::{self, any, assume, Sym};
 use epserde::prelude::*;
+use maligned::{A16, A64, Alignment};
 use std::io::{Cursor, Read, Seek, SeekFrom, Write};
 
 fn sym_seek() -> SeekFrom {
@@ -14,11 +21,14 @@ fn sym_seek() -> SeekFrom {
     }
 }
 
-/// (a) seek on an empty cursor at an arbitrary position: every SeekFrom.
-#[cfg_attr(kani, kani::proof)]
-pub fn c19_seek_empty_a16() {
-    let mut ac = AlignedCursor::<maligned::A16>::new();
+fn seek_cmp<T: Alignment, const L: usize>() {
+    let init: [u8; L] = [7u8; L];
+    let mut ac = AlignedCursor::<T>::new();
     let mut sc = Cursor::new(Vec::<u8>::new());
+    if L > 0 {
+        assert!(ac.write(&init).is_ok(), "HARNESS: initial write");
+        let _ = sc.write(&init);
+    }
     let pos: usize = any();
     ac.set_position(pos);
     sc.set_position(pos as u64);
@@ -26,17 +36,171 @@ pub fn c19_seek_empty_a16() {
     let ra = ac.seek(sf);
     let rs = sc.seek(sf);
     match (&ra, &rs) {
-        (Ok(a), Ok(b)) => {
-            assert!(a == b, "C19: seek returns the same offset as std");
-        }
+        (Ok(a), Ok(b)) => { assert!(a == b, "C19: seek returns the same offset as std"); }
         (Err(_), Err(_)) => {}
-        _ => {
-            assert!(false, "C19: seek Ok/Err agrees with std");
-        }
+        _ => { assert!(false, "C19: seek Ok/Err agrees with std"); }
     }
     assert!(ac.position() as u64 == sc.position(), "C19: position after seek agrees with std");
+    assert!(ac.len() == sc.get_ref().len(), "C19: seek does not change the length");
     crate::cover!(ra.is_ok(), "ok");
     crate::cover!(ra.is_err(), "err");
+    let spos = ac.stream_position();
+    assert!(matches!(spos, Ok(p) if p == ac.position() as u64), "C19: stream_position reports the position");
     core::mem::forget(ra);
     core::mem::forget(rs);
+    core::mem::forget(spos);
+}
+#[cfg_attr(kani, kani::proof)] #[cfg_attr(kani, kani::unwind(3))]
+pub fn c19_seek_empty_a16() { seek_cmp::<A16, 0>() }
+#[cfg_attr(kani, kani::proof)] #[cfg_attr(kani, kani::unwind(3))]
+pub fn c19_seek_len5_a16() { seek_cmp::<A16, 5>() }
+#[cfg_attr(kani, kani::proof)] #[cfg_attr(kani, kani::unwind(3))]
+pub fn c19_seek_len17_a64() { seek_cmp::<A64, 17>() }
+
+/// Representation invariant + observable state equals std's, on (ac, sc).
+fn same_state<T: Alignment>(ac: &mut AlignedCursor<T>, sc: &Cursor<Vec<u8>>) {
+    assert!(ac.position() as u64 == sc.position(), "C19: position agrees with std");
+    assert!(ac.len() == sc.get_ref().len(), "C19: length agrees with std");
+    assert!(ac.is_empty() == sc.get_ref().is_empty(), "C19: is_empty agrees with std");
+    let n = ac.len();
+    let k: usize = any();
+    assume(k < n);
+    let ab = ac.as_bytes();
+    assert!(ab.len() == n, "C19: as_bytes has the cursor's length");
+    assert!(ab[k] == sc.get_ref()[k], "C19: contents agree with std (incl. zero-filled gap)");
+    assert!(ab.as_ptr() as usize % core::mem::align_of::<T>() == 0, "C19: storage starts at an address aligned to the alignment type");
+}
+
+/// Invariant on the consumed cursor: capacity is the length rounded up to the
+/// unit and the tail beyond the length is zero.
+fn invariant<T: Alignment>(ac: AlignedCursor<T>) {
+    let unit = core::mem::size_of::<T>();
+    let (v, len) = ac.into_parts();
+    let cap = v.len() * unit;
+    assert!(cap >= len, "C19: storage covers the length");
+    let bytes = unsafe { core::slice::from_raw_parts(v.as_ptr() as *const u8, cap) };
+    let j: usize = any();
+    assume(j >= len && j < cap);
+    assert!(bytes[j] == 0, "C19: bytes beyond the length are zero");
+}
+
+/// One write step from state (init[0..L], POS) with WL symbolic bytes.
+fn write_step<T: Alignment, const L: usize, const POS: usize, const WL: usize>()
+where
+    [u8; L]: Sym,
+    [u8; WL]: Sym,
+{
+    let init: [u8; L] = any();
+    let mut ac = AlignedCursor::<T>::new();
+    let mut sc = Cursor::new(Vec::<u8>::new());
+    if L > 0 {
+        assert!(matches!(ac.write(&init), Ok(n) if n == L), "HARNESS: initial write");
+        let _ = sc.write(&init);
+    }
+    ac.set_position(POS);
+    sc.set_position(POS as u64);
+    let data: [u8; WL] = any();
+    let ra = ac.write(&data);
+    let rs = sc.write(&data);
+    match (&ra, &rs) {
+        (Ok(a), Ok(b)) => { assert!(a == b, "C19: write returns the same count as std"); }
+        _ => { assert!(false, "C19: write succeeds like std"); }
+    }
+    core::mem::forget(ra);
+    core::mem::forget(rs);
+    same_state(&mut ac, &sc);
+    assert!(ac.flush().is_ok(), "C19: flush succeeds");
+    invariant(ac);
+}
+
+/// One read step from state (init[0..L], POS) into a buffer of RL bytes.
+fn read_step<T: Alignment, const L: usize, const POS: usize, const RL: usize>()
+where
+    [u8; L]: Sym,
+{
+    let init: [u8; L] = any();
+    let mut ac = AlignedCursor::<T>::new();
+    let mut sc = Cursor::new(Vec::<u8>::new());
+    if L > 0 {
+        assert!(matches!(ac.write(&init), Ok(n) if n == L), "HARNESS: initial write");
+        let _ = sc.write(&init);
+    }
+    ac.set_position(POS);
+    sc.set_position(POS as u64);
+    let mut ba = [0xEEu8; RL];
+    let mut bs = [0xEEu8; RL];
+    let ra = ac.read(&mut ba);
+    let rs = sc.read(&mut bs);
+    match (&ra, &rs) {
+        (Ok(a), Ok(b)) => { assert!(a == b, "C19: read returns the same count as std"); }
+        _ => { assert!(false, "C19: read succeeds like std"); }
+    }
+    core::mem::forget(ra);
+    core::mem::forget(rs);
+    let k: usize = any();
+    assume(k < RL);
+    assert!(ba[k] == bs[k], "C19: read delivers the same bytes as std (and leaves the rest of the buffer alone)");
+    same_state(&mut ac, &sc);
+}
+
+macro_rules! wstep {
+    ($($name:ident : $t:ty, $l:literal, $pos:literal, $wl:literal);* $(;)?) => {$(
+        #[cfg_attr(kani, kani::proof)] #[cfg_attr(kani, kani::unwind(60))]
+        pub fn $name() { write_step::<$t, $l, $pos, $wl>() }
+    )*};
+}
+macro_rules! rstep {
+    ($($name:ident : $t:ty, $l:literal, $pos:literal, $rl:literal);* $(;)?) => {$(
+        #[cfg_attr(kani, kani::proof)] #[cfg_attr(kani, kani::unwind(8))]
+        pub fn $name() { read_step::<$t, $l, $pos, $rl>() }
+    )*};
+}
+include!("c19_grid.rs");
+
+/// (c) three-step history from the empty cursor: write a, set_position p, write b, seek, read.
+#[cfg_attr(kani, kani::proof)] #[cfg_attr(kani, kani::unwind(24))]
+pub fn c19_history_a16() {
+    let mut ac = AlignedCursor::<A16>::new();
+    let mut sc = Cursor::new(Vec::<u8>::new());
+    let a: [u8; 3] = any();
+    let _ = ac.write(&a);
+    let _ = sc.write(&a);
+    let p: usize = any();
+    assume(p <= 20);
+    ac.set_position(p);
+    sc.set_position(p as u64);
+    let b: [u8; 2] = any();
+    let ra = ac.write(&b);
+    let rs = sc.write(&b);
+    assert!(ra.is_ok() == rs.is_ok(), "C19: write succeeds like std");
+    core::mem::forget(ra);
+    core::mem::forget(rs);
+    let off: i64 = any();
+    assume(off >= -8 && off <= 8);
+    let sa = ac.seek(SeekFrom::End(off));
+    let ss = sc.seek(SeekFrom::End(off));
+    assert!(sa.is_ok() == ss.is_ok(), "C19: seek Ok/Err agrees with std");
+    core::mem::forget(sa);
+    core::mem::forget(ss);
+    let mut ba = [0u8; 4];
+    let mut bs = [0u8; 4];
+    let na = ac.read(&mut ba);
+    let ns = sc.read(&mut bs);
+    assert!(matches!((&na, &ns), (Ok(x), Ok(y)) if x == y), "C19: read returns the same count as std");
+    core::mem::forget(na);
+    core::mem::forget(ns);
+    let k: usize = any();
+    assume(k < 4);
+    assert!(ba[k] == bs[k], "C19: read delivers the same bytes as std");
+    same_state(&mut ac, &sc);
+}
+
+/// Reachability twin.
+#[cfg_attr(kani, kani::proof)] #[cfg_attr(kani, kani::unwind(3))]
+pub fn c19_twin_reach() {
+    let mut ac = AlignedCursor::<A16>::new();
+    let d: [u8; 2] = any();
+    let _ = ac.write(&d);
+    let ab = ac.as_bytes();
+    assert!(ab[0] == 0, "TWIN: must be violated (contents are what was written)");
 }
